@@ -132,10 +132,12 @@ class StubLedger:
         self._utxo_reservation_lock = StubLock()
 
 
-def make_utxo(i, amount, height):
+def make_utxo(i, amount, height, funding_tx=None):
+    """Unspent output number i; by default each comes from its own funding transaction (position 0), with
+    funding_tx=j it is output number i of funding transaction j."""
     txo = Output.pay_pubkey_hash(amount, bytes([i + 1]) * 20)
-    txo.tx_ref = TXRefImmutable.from_id(('%02x' % (i + 1)) * 32, height)
-    txo.position = 0
+    txo.tx_ref = TXRefImmutable.from_id(('%02x' % ((i if funding_tx is None else funding_tx) + 1)) * 32, height)
+    txo.position = 0 if funding_tx is None else i
     return txo
 
 
@@ -154,7 +156,8 @@ def run(vm, k, strategy, with_claim, preset, sym_rate, mask=None, faults=False):
         heights = [vm.new_int('height', -1, 1) for _ in range(k)]
     else:
         heights = [1 if (mask >> i) & 1 else 0 for i in range(k)]      # confirmed / unconfirmed pattern of this job
-    utxos = [make_utxo(i, a, h) for i, (a, h) in enumerate(zip(amounts, heights))]
+    shared = k >= 2 and mask is None and vm.new_bool('two_outputs_of_one_funding_tx')
+    utxos = [make_utxo(i, a, h, 0 if (shared and i < 2) else None) for i, (a, h) in enumerate(zip(amounts, heights))]
     account = StubAccount(ledger, utxos)
     account.change.may_fail = faults
     outputs = []
@@ -162,7 +165,12 @@ def run(vm, k, strategy, with_claim, preset, sym_rate, mask=None, faults=False):
     outputs.append(Output.pay_pubkey_hash(pay, b'\x07' * 20))
     if with_claim:
         stake = vm.new_int('stake', 0, 21 * 10 ** 16)
-        outputs.append(Output.pay_claim_name_pubkey_hash(stake, 'a-name', b'\x01claimpayload', b'\x08' * 20))
+        name = vm.new_str('name_char', 1, 0x20, 0x10ffff) + '-nam'          # any first character: 1..4 bytes in UTF-8
+        try:
+            name_bytes = name.encode()
+        except UnicodeEncodeError:
+            return 'ok-unencodable-name'
+        outputs.append(Output.pay_claim_name_pubkey_hash(stake, name, b'\x01claimpayload', b'\x08' * 20))
     requested = list(outputs)
     wanted = [o.amount for o in requested]
     inputs = []
@@ -237,8 +245,11 @@ def run(vm, k, strategy, with_claim, preset, sym_rate, mask=None, faults=False):
     min_fee = tx.get_base_fee(ledger)
     for txi in tx.inputs:
         min_fee = min_fee + txi.get_fee(ledger)
-    for o in tx.outputs:
-        min_fee = min_fee + o.get_fee(ledger)
+    for idx, o in enumerate(tx.outputs):
+        out_fee = o.size * rate
+        if with_claim and idx == 1:
+            out_fee = max(out_fee, len(name_bytes) * ledger.fee_per_name_char)      # a new claim pays per byte of its name
+        min_fee = min_fee + out_fee
     if min_fee < tx.size * rate:
         return 'VIOLATION: harness expectation (name fee below size fee)'
     if fee < min_fee:
